@@ -49,10 +49,9 @@ Proof. exact undefined_paste_diag_fuel. Qed.
 Print Assumptions undefined_paste_diagnostic.
 
 (* an error inside a pasted body is re-located at, and wrapped by, every PASTE on the way *)
-Theorem paste_error_wrapped : forall m t r p mt en e f1,
+Theorem paste_error_wrapped : forall m t r p mt e f1,
   is_paste t = true -> d_annot (tree_dir t) = [] -> dname t <> [] -> macro_lookup m (dname t) = Some mt ->
-  collect_rules (tree_kids mt) (ps_enums p) = COk en ->
-  paste_list f1 m (tree_kids mt) {| ps_frames := ps_frames p; ps_roots := ps_roots p; ps_enums := en |} = CErr e ->
+  paste_list f1 m (tree_kids mt) p = CErr e ->
   exists f0, forall f, (f0 <= f)%nat -> paste_list f m (t :: r) p = CErr (wrap_paste (tree_dir t) e).
 Proof. exact paste_error_wrapped_fuel. Qed.
 Print Assumptions paste_error_wrapped.
@@ -138,7 +137,26 @@ Theorem paste_is_inlining : forall ts f,
 Proof. exact paste_is_inlining_scanned_lemma. Qed.
 Print Assumptions paste_is_inlining.
 
-(* and it is needed on arbitrary forests *)
+(* the other direction, now that no rule is collected while pasting: when the definitions are in order and
+   acyclic (which is decided before anything is pasted), whatever the inlined document expands to, the
+   document with macros expands to *)
+Theorem inlining_is_paste : forall ts rest m f,
+  collect_macro ts [] = COk (rest, m) ->
+  check_all_macros (check_fuel m) m (map fst m) [] = COk tt ->
+  no_macro_nodes (inlined_document ts) = true ->
+  expand (inlined_document ts) = COk f -> expand ts = COk f.
+Proof. exact inlining_is_paste_lemma. Qed.
+Print Assumptions inlining_is_paste.
+
+Theorem paste_iff_inlining : forall ts rest m f,
+  collect_macro ts [] = COk (rest, m) ->
+  check_all_macros (check_fuel m) m (map fst m) [] = COk tt ->
+  bodies_macro_free m = true ->
+  (expand ts = COk f <-> expand (inlined_document ts) = COk f).
+Proof. exact paste_iff_inlining_lemma. Qed.
+Print Assumptions paste_iff_inlining.
+
+(* and the guard is needed on arbitrary forests *)
 Theorem paste_is_inlining_refuted : exists ts f, expand ts = COk f /\ expand (inlined_document ts) <> COk f.
 Proof. exact Examples.unguarded_refuted. Qed.
 Print Assumptions paste_is_inlining_refuted.
